@@ -65,22 +65,28 @@ struct FileCase {
 }
 
 fn gen_case(rng: &mut Rng) -> FileCase {
+    // a fixed share (1/6) of the cases goes through the legacy 0.1 writer / reader
     let version = *rng.pick(&[
+        LanceFileVersion::Legacy,
         LanceFileVersion::V2_0,
         LanceFileVersion::V2_1,
         LanceFileVersion::V2_1,
         LanceFileVersion::V2_2,
+        LanceFileVersion::V2_2,
     ]);
     let v21 = version >= LanceFileVersion::V2_1;
+    let legacy = version == LanceFileVersion::Legacy;
     let cfg = GenCfg {
         max_depth: 3,
         struct_nulls: v21,
         nested_fsl: v21 && rng.chance(1, 2),
-        packed_struct: rng.chance(1, 2),
-        blob: rng.chance(1, 3),
+        packed_struct: !legacy && rng.chance(1, 2),
+        blob: !legacy && rng.chance(1, 3),
         views: rng.chance(1, 10),
-        compression_meta: rng.chance(1, 2),
+        compression_meta: !legacy && rng.chance(1, 2),
         large_values: rng.chance(1, 4),
+        dictionary: !legacy,
+        nulls: !legacy,
     };
     let ncols = rng.urange(1, 4);
     let depth = *rng.pick(&[0usize, 1, 1, 2, 2, 3]);
@@ -395,6 +401,9 @@ fn first_panic() -> String {
 
 /// Write `c`, read it back in `n` ways derived from `read_seed`, compare. Reports nothing.
 async fn check_file(c: &FileCase, read_seed: u64, selftest: bool) -> FileOutcome {
+    if c.version == LanceFileVersion::Legacy {
+        return check_file_legacy(c, read_seed, selftest).await;
+    }
     let mut rng = Rng::new(read_seed);
     let rng = &mut rng;
     let n_total: usize = c.batches.iter().map(|b| b.num_rows()).sum();
@@ -427,9 +436,9 @@ async fn check_file(c: &FileCase, read_seed: u64, selftest: bool) -> FileOutcome
         lance_core::Result::Ok((rows, mapping))
     };
     clear_panics();
-    let wres = tokio::time::timeout(Duration::from_secs(180), AssertUnwindSafe(write).catch_unwind()).await;
+    let wres = tokio::time::timeout(Duration::from_secs(90), AssertUnwindSafe(write).catch_unwind()).await;
     let (written, mapping) = match wres {
-        Err(_) => return FileOutcome::Inconclusive("writer did not finish in 180 s".into()),
+        Err(_) => return FileOutcome::Inconclusive("writer did not finish in 90 s".into()),
         Ok(Err(_p)) => return FileOutcome::WriterPanicked(first_panic()),
         Ok(Ok(Err(e))) => return FileOutcome::WriterRejected(e.to_string()),
         Ok(Ok(Ok(x))) => x,
@@ -460,8 +469,8 @@ async fn check_file(c: &FileCase, read_seed: u64, selftest: bool) -> FileOutcome
         FileReader::try_open(fs, None, Arc::<DecoderPlugins>::default(), &cache, ropts.clone()).await
     };
     clear_panics();
-    let reader = match tokio::time::timeout(Duration::from_secs(180), AssertUnwindSafe(open).catch_unwind()).await {
-        Err(_) => return FileOutcome::Inconclusive("open did not finish in 180 s".into()),
+    let reader = match tokio::time::timeout(Duration::from_secs(90), AssertUnwindSafe(open).catch_unwind()).await {
+        Err(_) => return FileOutcome::Inconclusive("open did not finish in 90 s".into()),
         Ok(Err(_)) => {
             let loc = first_panic();
             viols.push(Viol {
@@ -604,9 +613,9 @@ async fn check_file(c: &FileCase, read_seed: u64, selftest: bool) -> FileOutcome
                 .collect(),
         };
         let only_col = if touched.len() == 1 { Some(touched[0]) } else { None };
-        let got = match tokio::time::timeout(Duration::from_secs(180), AssertUnwindSafe(read).catch_unwind()).await {
+        let got = match tokio::time::timeout(Duration::from_secs(90), AssertUnwindSafe(read).catch_unwind()).await {
             Err(_) => {
-                stats.inconclusive.push(format!("read {k}: no result in 180 s"));
+                stats.inconclusive.push(format!("read {k}: no result in 90 s"));
                 continue;
             }
             Ok(Err(_)) => {
@@ -748,6 +757,370 @@ async fn check_file(c: &FileCase, read_seed: u64, selftest: bool) -> FileOutcome
     FileOutcome::Checked(viols, stats)
 }
 
+/// Format 0.1 stores a null of a nullable string / binary field as a zero-length value (there is no
+/// validity buffer; `BinaryDecoder::count_nulls` turns every zero-length value back into a null), so an
+/// empty value and a null are the same stored value by design.
+fn legacy_norm(c: Cell) -> Cell {
+    match c {
+        Cell::Str(s) if s.is_empty() => Cell::Null,
+        Cell::Bin(b) if b.is_empty() => Cell::Null,
+        Cell::List(v) => Cell::List(v.into_iter().map(legacy_norm).collect()),
+        Cell::Struct(v) => Cell::Struct(v.into_iter().map(|(k, c)| (k, legacy_norm(c))).collect()),
+        other => other,
+    }
+}
+
+/// The legacy (0.1) file format: `lance_file::previous::{writer, reader}`. Every `write` call becomes one
+/// on-disk batch; reads: whole file (`read_range`), sub-ranges, `take` with sorted indices,
+/// `read_batch` with every `ReadBatchParams` form, projections (top-level subsets and nested leaves).
+async fn check_file_legacy(c: &FileCase, read_seed: u64, selftest: bool) -> FileOutcome {
+    use lance_file::previous::reader::FileReader as OldReader;
+    use lance_file::previous::writer::{FileWriter as OldWriter, FileWriterOptions as OldOptions};
+    use lance_table::io::manifest::ManifestDescribing;
+    let n_total: usize = c.batches.iter().map(|b| b.num_rows()).sum();
+    let lance_schema = match LanceSchema::try_from(c.schema.as_ref()) {
+        Ok(s) => s,
+        Err(e) => return FileOutcome::SchemaRejected(e.to_string()),
+    };
+    let store = Arc::new(ObjectStore::memory());
+    let path = Path::from("legacy.lance");
+    // group the batches into write calls (1-3 batches per call), independent of the schema
+    let mut groups: Vec<Vec<RecordBatch>> = vec![];
+    {
+        let mut g = Rng::for_case(read_seed, 7_000_001);
+        let mut i = 0;
+        while i < c.batches.len() {
+            let k = g.urange(1, 3).min(c.batches.len() - i);
+            groups.push(c.batches[i..i + k].to_vec());
+            i += k;
+        }
+    }
+    let collect_stats = Rng::for_case(read_seed, 7_000_002).bool();
+    let write = async {
+        let mut w = OldWriter::<ManifestDescribing>::try_new(
+            &store,
+            &path,
+            lance_schema.clone(),
+            &OldOptions {
+                collect_stats_for_fields: if collect_stats { None } else { Some(vec![]) },
+            },
+        )
+        .await?;
+        for g in &groups {
+            w.write(g).await?;
+        }
+        w.finish().await
+    };
+    clear_panics();
+    let written = match tokio::time::timeout(Duration::from_secs(90), AssertUnwindSafe(write).catch_unwind()).await {
+        Err(_) => return FileOutcome::Inconclusive("legacy writer did not finish in 90 s".into()),
+        Ok(Err(_)) => return FileOutcome::WriterPanicked(first_panic()),
+        Ok(Ok(Err(e))) => return FileOutcome::WriterRejected(e.to_string()),
+        Ok(Ok(Ok(n))) => n,
+    };
+    let mut viols: Vec<Viol> = vec![];
+    let mut stats = Stats::default();
+    if written != n_total {
+        viols.push(Viol {
+            kind: "finish-row-count".into(),
+            what: format!("legacy finish() returned {written}, {n_total} rows were written"),
+            detail: json!({"finish_returned": written}),
+            column: None,
+        });
+    }
+    let expected = expected_columns(&c.batches, c.schema.fields().len());
+    let open = OldReader::try_new(&store, &path, lance_schema.clone());
+    clear_panics();
+    let reader = match tokio::time::timeout(Duration::from_secs(90), AssertUnwindSafe(open).catch_unwind()).await {
+        Err(_) => return FileOutcome::Inconclusive("legacy open did not finish in 90 s".into()),
+        Ok(Err(_)) => {
+            let loc = first_panic();
+            viols.push(Viol {
+                kind: format!("panic-opening-written-file-at-{}", short_loc(&loc)),
+                what: format!("legacy FileReader::try_new panicked on a file the writer produced: {loc}"),
+                detail: json!({"panic": loc}),
+                column: None,
+            });
+            return FileOutcome::Checked(viols, stats);
+        }
+        Ok(Ok(Err(e))) => {
+            viols.push(Viol {
+                kind: "cannot-open-written-file".into(),
+                what: format!("legacy FileReader::try_new failed on a file the writer produced: {e}"),
+                detail: json!({"error": e.to_string()}),
+                column: None,
+            });
+            return FileOutcome::Checked(viols, stats);
+        }
+        Ok(Ok(Ok(r))) => r,
+    };
+    if reader.len() != n_total {
+        viols.push(Viol {
+            kind: "num-rows".into(),
+            what: format!("legacy reader.len() = {}, written {n_total}", reader.len()),
+            detail: json!({"len": reader.len()}),
+            column: None,
+        });
+    }
+    // on-disk batch boundaries (a write call with 0 rows is not stored as a batch of its own by all paths:
+    // use what the reader reports)
+    let nb = reader.num_batches();
+    let mut batch_starts = vec![0usize];
+    for b in 0..nb {
+        batch_starts.push(batch_starts[b] + reader.num_rows_in_batch(b as i32));
+    }
+    let mut paths = vec![];
+    for f in c.schema.fields() {
+        leaf_paths(f, f.name(), &mut paths);
+    }
+    let n_reads = if n_total == 0 { 2 } else { 10 };
+    for k in 0..n_reads {
+        let mut rk = Rng::for_case(read_seed, k as u64);
+        // 0 full, 1-2 range, 3-4 take, 5.. read_batch with some params
+        let mode = if k == 0 || n_total == 0 { 0 } else { rk.below(9) };
+        let mut rp = Rng::for_case(read_seed ^ 0x5bd1_e995, k as u64);
+        let proj_names: Option<Vec<String>> = if k < 2 || rp.chance(1, 2) {
+            None
+        } else {
+            let mut sel: Vec<String> = vec![];
+            if rp.bool() {
+                for f in c.schema.fields() {
+                    if rp.bool() {
+                        sel.push(f.name().clone());
+                    }
+                }
+            } else {
+                let mut seen_top = std::collections::BTreeSet::new();
+                for p in &paths {
+                    let top = p.split('.').next().unwrap().to_string();
+                    if !seen_top.contains(&top) && rp.chance(1, 2) {
+                        seen_top.insert(top);
+                        sel.push(p.clone());
+                    }
+                }
+            }
+            if sel.is_empty() {
+                sel.push(c.schema.field(rp.usize_below(c.schema.fields().len())).name().clone());
+            }
+            Some(sel)
+        };
+        let projection = match &proj_names {
+            None => lance_schema.clone(),
+            Some(names) => {
+                let refs: Vec<&str> = names.iter().map(|s| s.as_str()).collect();
+                match lance_schema.project(&refs) {
+                    Ok(p) => p,
+                    Err(e) => {
+                        stats.projection_rejected.push(e.to_string());
+                        continue;
+                    }
+                }
+            }
+        };
+        // rows this read must return (file row numbers), and the call
+        let (name, rows, desc): (&'static str, Vec<usize>, String);
+        let fut: futures::future::BoxFuture<'_, lance_core::Result<RecordBatch>>;
+        match mode {
+            0 => {
+                name = "legacy_read_range_full";
+                rows = (0..n_total).collect();
+                desc = format!("read_range(0..{n_total})");
+                fut = reader.read_range(0..n_total, &projection).boxed();
+            }
+            1 | 2 => {
+                let a = rk.usize_below(n_total);
+                let b = rk.urange(a + 1, n_total);
+                name = "legacy_read_range";
+                rows = (a..b).collect();
+                desc = format!("read_range({a}..{b})");
+                fut = reader.read_range(a..b, &projection).boxed();
+            }
+            3 | 4 => {
+                let want = rk.urange(1, n_total.min(40));
+                let mut ix: Vec<u32> = rk.sample_indices(n_total, want).into_iter().map(|i| i as u32).collect();
+                ix.sort();
+                name = "legacy_take";
+                rows = ix.iter().map(|i| *i as usize).collect();
+                desc = format!("take({ix:?})");
+                let ixc = ix.clone();
+                let proj = &projection;
+                let r = &reader;
+                fut = async move { r.take(&ixc, proj).await }.boxed();
+            }
+            _ => {
+                if nb == 0 {
+                    continue;
+                }
+                // a non-empty on-disk batch
+                let candidates: Vec<usize> = (0..nb).filter(|b| batch_starts[b + 1] > batch_starts[*b]).collect();
+                if candidates.is_empty() {
+                    continue;
+                }
+                let b = candidates[rk.usize_below(candidates.len())];
+                let len = batch_starts[b + 1] - batch_starts[b];
+                let base = batch_starts[b];
+                let (params, local): (ReadBatchParams, Vec<usize>) = match rk.below(5) {
+                    0 => (ReadBatchParams::RangeFull, (0..len).collect()),
+                    1 => {
+                        let x = rk.usize_below(len);
+                        let y = rk.urange(x + 1, len);
+                        (ReadBatchParams::Range(x..y), (x..y).collect())
+                    }
+                    2 => {
+                        let y = rk.urange(1, len);
+                        (ReadBatchParams::RangeTo(..y), (0..y).collect())
+                    }
+                    3 => {
+                        let x = rk.usize_below(len);
+                        (ReadBatchParams::RangeFrom(x..), (x..len).collect())
+                    }
+                    _ => {
+                        let want = rk.urange(1, len.min(20));
+                        let mut ix: Vec<u32> = rk.sample_indices(len, want).into_iter().map(|i| i as u32).collect();
+                        ix.sort();
+                        let l = ix.iter().map(|i| *i as usize).collect();
+                        (ReadBatchParams::Indices(UInt32Array::from(ix)), l)
+                    }
+                };
+                name = "legacy_read_batch";
+                rows = local.iter().map(|i| base + i).collect();
+                desc = format!("read_batch({b}, {params})");
+                fut = reader.read_batch(b as i32, params, &projection).boxed();
+            }
+        }
+        let read_desc = json!({"kind": name, "call": desc, "projection": proj_names, "write_calls": groups.iter().map(|g| g.iter().map(|b| b.num_rows()).sum::<usize>()).collect::<Vec<_>>(),
+            "collect_stats": collect_stats});
+        let touched: Vec<usize> = match &proj_names {
+            None => (0..c.schema.fields().len()).collect(),
+            Some(names) => names.iter().map(|p| c.schema.index_of(p.split('.').next().unwrap()).unwrap()).collect(),
+        };
+        let only_col = if touched.len() == 1 { Some(touched[0]) } else { None };
+        clear_panics();
+        let got = match tokio::time::timeout(Duration::from_secs(90), AssertUnwindSafe(fut).catch_unwind()).await {
+            Err(_) => {
+                stats.inconclusive.push(format!("legacy read {k}: no result in 90 s"));
+                continue;
+            }
+            Ok(Err(_)) => {
+                let loc = first_panic();
+                viols.push(Viol {
+                    kind: if loc.contains("Incorrect datatype for StructArray field") {
+                        "legacy-list-with-non-nullable-item-unreadable".to_string()
+                    } else {
+                        format!("panic-in-reader-at-{}", short_loc(&loc))
+                    },
+                    what: format!("legacy read panicked: {loc}"),
+                    detail: json!({"read": read_desc, "panic": loc}),
+                    column: only_col,
+                });
+                stats.reads.push((name, proj_names.is_some()));
+                continue;
+            }
+            Ok(Ok(Err(e))) => {
+                let inner = first_panic();
+                let kindname = if e.to_string().contains("column types must match schema types") {
+                    "legacy-list-with-non-nullable-item-unreadable".to_string()
+                } else if !inner.is_empty() && e.to_string().contains("panicked") {
+                    format!("panic-in-decode-task-at-{}", short_loc(&inner))
+                } else {
+                    let msg: String = e.to_string().chars().filter(|c| !c.is_ascii_digit()).take(70).collect();
+                    format!("read-error-{}", slug(&msg))
+                };
+                viols.push(Viol {
+                    kind: kindname,
+                    what: format!("reading a written legacy file failed ({desc}): {e}"),
+                    detail: json!({"read": read_desc, "error": e.to_string()}),
+                    column: only_col,
+                });
+                stats.reads.push((name, proj_names.is_some()));
+                continue;
+            }
+            Ok(Ok(Ok(b))) => b,
+        };
+        stats.reads.push((name, proj_names.is_some()));
+        let mut got = got;
+        let mut corrupted = false;
+        if selftest && got.num_rows() >= 2 {
+            got = got.slice(1, got.num_rows() - 1);
+            stats.selftest_corrupted += 1;
+            corrupted = true;
+        }
+        let before = viols.len();
+        let exp_cols: Vec<(String, Vec<Cell>, usize)> = match &proj_names {
+            None => c
+                .schema
+                .fields()
+                .iter()
+                .enumerate()
+                .map(|(ci, f)| (f.name().clone(), rows.iter().map(|r| expected[ci][*r].clone()).collect(), ci))
+                .collect(),
+            Some(names) => {
+                // the projected schema keeps the order of the file schema
+                let mut v: Vec<(String, Vec<Cell>, usize)> = names
+                    .iter()
+                    .map(|p| {
+                        let parts: Vec<&str> = p.split('.').collect();
+                        let ci = c.schema.index_of(parts[0]).unwrap();
+                        (p.clone(), rows.iter().map(|r| project_cell(&expected[ci][*r], &parts[1..])).collect(), ci)
+                    })
+                    .collect();
+                v.sort_by_key(|x| x.2);
+                v
+            }
+        };
+        if got.num_columns() != exp_cols.len() {
+            viols.push(Viol {
+                kind: "batch-shape".into(),
+                what: format!("{desc}: {} columns returned, {} expected", got.num_columns(), exp_cols.len()),
+                detail: json!({"read": read_desc}),
+                column: only_col,
+            });
+        } else {
+            for (ci, (cname, exp, top)) in exp_cols.iter().enumerate() {
+                let a = got.column(ci);
+                let g: Vec<Cell> = (0..a.len()).map(|i| legacy_norm(cell_at(a.as_ref(), i))).collect();
+                let exp: Vec<Cell> = exp.iter().cloned().map(legacy_norm).collect();
+                let exp = &exp;
+                stats.cells_compared += g.len() as u64;
+                if g.len() != exp.len() {
+                    viols.push(Viol {
+                        kind: "row-count".into(),
+                        what: format!("{desc}: column {cname} returned {} rows, expected {}", g.len(), exp.len()),
+                        detail: json!({"read": read_desc, "column": cname}),
+                        column: Some(*top),
+                    });
+                    break;
+                }
+                if let Some(r) = (0..exp.len()).find(|r| exp[*r] != g[*r]) {
+                    let dp = diff_path(&exp[r], &g[r]);
+                    viols.push(Viol {
+                        kind: format!("cell-differs-{dp}"),
+                        what: format!(
+                            "{desc}: column {cname} row {r} (file row {}): expected {} got {}",
+                            rows[r],
+                            exp[r].render().chars().take(120).collect::<String>(),
+                            g[r].render().chars().take(120).collect::<String>()
+                        ),
+                        detail: json!({"read": read_desc, "column": cname, "row_in_result": r, "row_in_file": rows[r],
+                            "expected": exp[r].render().chars().take(400).collect::<String>(),
+                            "observed": g[r].render().chars().take(400).collect::<String>(),
+                            "mismatching_rows": (0..exp.len()).filter(|r| exp[*r] != g[*r]).count()}),
+                        column: Some(*top),
+                    });
+                    break;
+                }
+            }
+        }
+        if corrupted {
+            if viols.len() > before {
+                stats.selftest_flagged += 1;
+            }
+            viols.truncate(before);
+        }
+    }
+    FileOutcome::Checked(viols, stats)
+}
+
 /// the same file restricted to one top-level column
 fn isolate_column(c: &FileCase, ci: usize) -> FileCase {
     let schema = Arc::new(ArrowSchema::new(vec![c.schema.field(ci).clone()]));
@@ -797,7 +1170,9 @@ fn single_batch(c: &FileCase) -> Option<FileCase> {
 }
 
 fn version_group(v: LanceFileVersion) -> &'static str {
-    if v >= LanceFileVersion::V2_1 {
+    if v == LanceFileVersion::Legacy {
+        "0.1"
+    } else if v >= LanceFileVersion::V2_1 {
         "2.1+"
     } else {
         "2.0"
@@ -914,7 +1289,9 @@ async fn run_case(ctx: &Ctx<'_>, rng: &mut Rng, selftest: bool) {
             }
         }
         // 3. fewer batches, fewer rows per batch (greedy, bounded)
-        let mut budget = 120;
+        // bounded: every trial writes and reads the whole remaining file
+        let full_budget: i32 = if n_total <= 200 { 120 } else if n_total <= 1000 { 60 } else { 25 };
+        let mut budget = full_budget;
         let mut progress = true;
         while progress && budget > 0 {
             progress = false;
@@ -956,7 +1333,7 @@ async fn run_case(ctx: &Ctx<'_>, rng: &mut Rng, selftest: bool) {
                 }
             }
         }
-        if budget < 120 {
+        if budget < full_budget {
             steps.push("batches dropped / shrunk greedily".into());
         }
         // 4. one batch
@@ -1029,10 +1406,20 @@ async fn run_case(ctx: &Ctx<'_>, rng: &mut Rng, selftest: bool) {
             let kind = if v.kind.starts_with("cell-differs") && v.kind.ends_with("list-length") || v.kind == "row-count" {
                 "list-structure-differs".to_string()
             } else if v.kind.starts_with("read-error-encountered-internal-error") {
-                "read-error-internal".to_string()
+                // class of the internal error by its message
+                if v.what.contains("Max offset of") {
+                    "list-offsets-exceed-values".to_string()
+                } else if v.what.contains("bits_per_value must be greater than") {
+                    "bits-per-value-zero".to_string()
+                } else {
+                    "read-error-internal".to_string()
+                }
             } else if v.kind.starts_with("cell-differs") && v.kind.ends_with("/value") && v.kind.contains("list") {
-                // an item of a list came back with another value: classed by the kind of leaf below the list
+                // an item of a list came back with another value
                 "list-item-value-differs".to_string()
+            } else if v.kind.starts_with("cell-differs") {
+                // keep the innermost difference only (the path above it is the shape of the column)
+                format!("cell-differs-{}", v.kind.rsplit('/').next().unwrap_or("value").trim_start_matches("cell-differs-"))
             } else {
                 v.kind.clone()
             };
@@ -1041,38 +1428,41 @@ async fn run_case(ctx: &Ctx<'_>, rng: &mut Rng, selftest: bool) {
                 .column
                 .map(|ci| ci < cur.schema.fields().len() && cur.schema.field(ci).metadata().contains_key("lance-encoding:blob"))
                 .unwrap_or(false);
-            let (no_leaf, skel) = if on_blob { (false, "blob".to_string()) } else { (no_leaf, skel.clone()) };
-            let skel = if kind == "list-item-value-differs" && !on_blob {
-                if skel.contains("list<varwidth") || skel.contains("list<..") && tclass.contains("binary") || tclass.contains("utf8") {
-                    "variable-width-items".to_string()
-                } else if skel.contains("fsl<fsl") {
-                    "nested-fixed-size-list".to_string()
-                } else {
-                    skel
-                }
+            // trigger conditions computed from the reduced witness
+            let needs_small_pages = cur.data_cache_bytes.is_some() || cur.max_page_bytes.is_some();
+            let cond = if no_leaf {
+                "list-page-without-non-null-leaf-values"
+            } else if layout_dependent {
+                "layout-dependent"
+            } else if needs_small_pages {
+                "needs-non-default-page-sizes"
             } else {
-                skel
+                "default-options"
             };
-            let no_leaf = no_leaf && kind != "list-item-value-differs";
-            let needs_skel = !no_leaf && (kind.starts_with("list-structure") || kind.starts_with("list-item") || kind.starts_with("cell-differs") || kind.starts_with("read-error"));
+            let leaf = if !single {
+                "several-columns"
+            } else if tclass.contains("utf8") || tclass.contains("binary") && !tclass.contains("fixed_size_binary") {
+                "variable-width-items"
+            } else if tclass.contains("fixed_size_list") {
+                "fixed-size-list-items"
+            } else if tclass.contains("dictionary") {
+                "dictionary-items"
+            } else if tclass.split('/').any(|t| t == "null") {
+                "null-items"
+            } else {
+                "fixed-width-items"
+            };
+            let _ = &skel;
             // a panic location or the projection helper is already a narrow class of its own
-            let self_contained = kind.starts_with("panic-") || kind.starts_with("from-column-names");
+            let self_contained = kind.starts_with("panic-") || kind.starts_with("from-column-names") || kind.starts_with("legacy-");
             let sig = if self_contained {
                 format!("{}-{}", kind, version_group(cur.version))
+            } else if on_blob {
+                format!("{}-{}-blob", kind, version_group(cur.version))
+            } else if no_leaf {
+                format!("{}-{}-{cond}", kind, version_group(cur.version))
             } else {
-                format!(
-                "{}-{}{}{}",
-                kind,
-                version_group(cur.version),
-                if no_leaf {
-                    "-list-page-without-non-null-leaf-values"
-                } else if layout_dependent {
-                    "-layout-dependent"
-                } else {
-                    ""
-                },
-                if needs_skel { format!("-{skel}") } else { String::new() }
-            )
+                format!("{}-{}-{cond}-{leaf}", kind, version_group(cur.version))
             };
             if !seen.insert(sig.clone()) {
                 continue;
@@ -1486,8 +1876,10 @@ pub fn run(args: &Args) -> i32 {
         return probe_list(args, spec);
     }
     let selftest = args.extra.contains_key("selftest");
-    let report = Report::new(args, "exploration", RULE, (40, 900)).with_min_nontrivial(100);
+    let report = Report::new(args, "exploration", RULE, (30, 900)).with_min_nontrivial(100);
     report.assume("struct-level nulls are generated only for format >= 2.1 (2.0 documents that it cannot store them)");
+    report.assume("format 0.1: an empty string / binary value and a null are the same stored value (zero length, BinaryDecoder::count_nulls); the comparison identifies them");
+    report.assume("format 0.1 (legacy) cases contain no null values and no dictionaries: the format has no null support (versioning.md) and keeps one dictionary per column and file");
     report.assume("batch_size is an upper bound for batch length (documented), not an exact size");
     install_hook();
     let only: Option<u64> = args.extra.get("only-case").and_then(|s| s.parse().ok());
